@@ -12,8 +12,8 @@ databases); the theorems below prove it stage by stage: for every stage the SELE
 arbitrary input rows, computes what the direct reading defines.
 
 Numbers: Float64 values are exact rationals (`Rat`), UInt64/Int64 values integers; no theorem depends on IEEE
-rounding. Range durations are whole milliseconds (`1000000 ∣ d`, the divisor literal is printed from
-`Duration.Milliseconds()`), timestamps non-negative. -/
+rounding. Range durations are positive (any unit: since the `fix:` of the rate divisor nothing depends on whole
+milliseconds), timestamps non-negative. -/
 namespace Qryn.C08
 open Qryn Qryn.Sql Qryn.LogQL
 
@@ -74,14 +74,41 @@ theorem range_one_point_per_bucket (o : Oracles) (db : Db) (env : Env) (fn : Ran
     the value column `LRAPlanner` writes equals the range function of the direct reading on the entries of that
     group: count / seconds, count, bytes / seconds, bytes. -/
 theorem range_fn_lra (o : Oracles) (env : Env) (rows : List Row) (first : Row) (grp : List Sample) (fn : RangeFn)
-    (d : Nat) (h : LraRows rows grp) (hms : 1000000 ∣ d) (hd : 0 < d) :
-    evalAgg o env rows first (.col (lraValue fn (secLit d)) "value") = .rat (lraVal fn d grp) :=
-  LogQL.range_fn_lra o env rows first grp fn d h hms hd
+    (d : Nat) (h : LraRows rows grp) (hd : 0 < d) :
+    evalAgg o env rows first (.col (lraValue fn (.int d)) "value") = .rat (lraVal fn d grp) :=
+  LogQL.range_fn_lra o env rows first grp fn d h hd
 
 theorem range_fn_rate (grp : List Sample) (d : Nat) : lraVal .rate d grp = (grp.length : Int) / secondsOf d := rfl
 theorem range_fn_count_over_time (grp : List Sample) (d : Nat) : lraVal .countOverTime d grp = (grp.length : Int) := rfl
 theorem range_fn_bytes_rate (grp : List Sample) (d : Nat) :
     lraVal .bytesRate d grp = ((grp.map (fun s => (s.str.length : Int))).foldl (· + ·) 0 : Int) / secondsOf d := rfl
+/-! ### the rate divisor (`fix:` of the truncated `Milliseconds()/1000`)
+    `rate`, `bytes_rate` and the unwrapped `rate` now write `x * 1000000000 / <range in ns>`: `range_fn_lra` /
+    `range_fn_unwrap` hold for every positive range, whatever its unit. What the unfixed code wrote is characterised
+    here: the literal `float64(d.Milliseconds())/1000` (printed by `%f`) denotes `truncatedSeconds d`. -/
+
+/-- the number the unfixed divisor literal denoted: whole milliseconds of the range, over 1000 -/
+def truncatedSeconds (durNs : Nat) : Rat := secOfMs (durNs / 1000000)
+
+/-- it was the range in seconds for ranges that are whole milliseconds … -/
+theorem truncated_divisor_whole_ms (d : Nat) (h : 1000000 ∣ d) : truncatedSeconds d = secondsOf d :=
+  secOfMs_eq_secondsOf d h
+
+/-- … zero for every range below one millisecond (`rate({…}[500us])` divided by `0.000000`: no number at all) … -/
+theorem truncated_divisor_sub_ms_zero (d : Nat) (h : d < 1000000) : truncatedSeconds d = 0 := by
+  unfold truncatedSeconds secOfMs
+  rw [Nat.div_eq_of_lt h]
+  decide +kernel
+
+/-- … and too small otherwise: `[1500us]` was divided by 0.001 instead of 0.0015 (the rate came out 1.5 times too high) -/
+theorem truncated_divisor_counterexample :
+    truncatedSeconds 1500000 = 1 / 1000 ∧ secondsOf 1500000 = 15 / 10000 ∧ truncatedSeconds 1500000 ≠ secondsOf 1500000 := by
+  decide +kernel
+
+/-- the fixed expression: `x * 1000000000 / d` is `x` per second of a range of `d` ns, for every `d` (no unit condition) -/
+theorem per_second_any_unit (x : Rat) (d : Nat) : x * 1000000000 / ((d : Int) : Rat) = x / secondsOf d :=
+  perSecond_rat x d
+
 /-- after the fix of A17: the byte count itself, not divided by the range -/
 theorem range_fn_bytes_over_time (grp : List Sample) (d : Nat) :
     lraVal .bytesOverTime d grp = ((grp.map (fun s => (s.str.length : Int))).foldl (· + ·) 0 : Int) := rfl
@@ -90,9 +117,9 @@ theorem range_fn_bytes_over_time (grp : List Sample) (d : Nat) :
     group of `unwrap_1`, the value column `UnwrapFunctionPlanner` writes equals the range function of the direct
     reading on the (timestamp, value) pairs of that group. -/
 theorem range_fn_unwrap (o : Oracles) (env : Env) (rows : List Row) (first : Row) (grp : List (Int × Rat))
-    (fn : UnwrapFn) (d : Nat) (h : UnwrapRows rows grp) (hne : grp ≠ []) (hms : 1000000 ∣ d) (hd : 0 < d) :
-    evalAgg o env rows first (.col (unwrapValue fn (secLit d)) "value") = ((unwrapVal o fn d grp).map Val.rat).getD .null :=
-  LogQL.range_fn_unwrap o env rows first grp fn d h hne hms hd
+    (fn : UnwrapFn) (d : Nat) (h : UnwrapRows rows grp) (hne : grp ≠ []) (hd : 0 < d) :
+    evalAgg o env rows first (.col (unwrapValue fn (.int d)) "value") = ((unwrapVal o fn d grp).map Val.rat).getD .null :=
+  LogQL.range_fn_unwrap o env rows first grp fn d h hne hd
 
 /-- `stdvar_over_time` is the population variance of the group's values (the mean of the squared deviations from the
     mean: exact rational arithmetic), `stddev_over_time` the square root of it — `o.sqrt`, the one uninterpreted function
@@ -320,10 +347,10 @@ theorem gen_cmp_ops : cmpOpsModel = Gen.LogQLOps.cmpOps := cmpOps_eq
     range bucket containing a matching entry of `[from, to)`), valued by the range function over exactly those
     entries, filtered by the comparison, labelled with the stream's labels, ordered by (fingerprint, timestamp). -/
 theorem plan_metric_correct_range (o : Oracles) (c : MCtx) (hn : c.namesOk) (d : LokiDb) (r : RangeAgg) (fn : RangeFn)
-    (hk : r.kind = .lra fn) (hm : r.sel.matchers.length ≤ 63) (hms : 1000000 ∣ r.durNs) (hd : 0 < r.durNs)
+    (hk : r.kind = .lra fn) (hm : r.sel.matchers.length ≤ 63) (hd : 0 < r.durNs)
     (hs : takesShortcut (.range r) = false) (hstep : c.stepNs ≤ (r.durNs : Int)) :
     (evalSelA o (d.toDbM c) (planMetric c (.range r))).map normRow = evalMetric o c d (.range r) :=
-  planMetric_range_lra o c hn d r fn hk hm hms hd hs hstep
+  planMetric_range_lra o c hn d r fn hk hm hd hs hstep
 
 /-- **plan_metric_correct, class `aggOp by/without (…) (rangeFn({selector} [d]) [cmp]) [cmp]`** — sum, min, max, avg,
     count with a grouping clause (prefix or suffix position) over a range aggregation of the class above. The
@@ -333,24 +360,24 @@ theorem plan_metric_correct_range (o : Oracles) (c : MCtx) (hn : c.namesOk) (d :
     timestamp) aggregated by the written operator, both comparisons applied where written. -/
 theorem plan_metric_correct_agg (o : Oracles) (c : MCtx) (hn : c.namesOk) (d : LokiDb) (a : VecAgg) (fn : RangeFn)
     (hk : a.inner.kind = .lra fn)
-    (hm : a.inner.sel.matchers.length ≤ 63) (hms : 1000000 ∣ a.inner.durNs) (hd : 0 < a.inner.durNs)
+    (hm : a.inner.sel.matchers.length ≤ 63) (hd : 0 < a.inner.durNs)
     (hs : takesShortcut (.agg a) = false) (hstep : c.stepNs ≤ (a.inner.durNs : Int)) :
     (evalSelA o (d.toDbM c) (planMetric c (.agg a))).map normRow = evalMetric o c d (.agg a) :=
-  planMetric_agg_lra o c hn d a fn hk hm hms hd hs hstep
+  planMetric_agg_lra o c hn d a fn hk hm hd hs hstep
 
 /-- **plan_metric_correct on the samples path, every query shape.** `q` is any metric query whose range aggregation is
     rate / count_over_time / bytes_rate / bytes_over_time and does not take the metrics_15s shortcut: the range
     aggregation alone, under sum/min/max/avg/count with a grouping clause, under topk/bottomk (of either), with a
     comparison after any of them; the step may be smaller or larger than the range (`StepFixPlanner` planned or not).
-    Hypotheses: at most 63 matchers, the range a positive whole number of milliseconds, a vector aggregation has a
+    Hypotheses: at most 63 matchers, the range positive, (formerly:) a vector aggregation has a
     grouping clause (`aggOk`; without one the plan keeps one series per stream — finding
     C08/agg-without-grouping-keeps-streams) and is not stddev/stdvar. Then the generated statement, under the
     documented SQL semantics, returns exactly the matrix of the direct reading. -/
 theorem plan_metric_correct_samples_path (o : Oracles) (c : MCtx) (hn : c.namesOk) (d : LokiDb) (q : MetricQuery) (fn : RangeFn)
     (hk : q.rangeAgg.kind = .lra fn) (hs : takesShortcut q = false) (hok : aggOk q)
-    (hm : q.rangeAgg.sel.matchers.length ≤ 63) (hms : 1000000 ∣ q.rangeAgg.durNs) (hd : 0 < q.rangeAgg.durNs) :
+    (hm : q.rangeAgg.sel.matchers.length ≤ 63) (hd : 0 < q.rangeAgg.durNs) :
     (evalSelA o (d.toDbM c) (planMetric c q)).map normRow = evalMetric o c d q :=
-  planMetric_lra o c hn d q fn hk hs hok hm hms hd
+  planMetric_lra o c hn d q fn hk hs hok hm hd
 
 /-- **plan_metric_correct on the metrics_15s path, every query shape.** `q` takes the shortcut (`shortcut_iff`: rate or
     count_over_time, range a multiple of 15 s, only line filters that pass every line). Hypotheses besides those of the
@@ -360,11 +387,11 @@ theorem plan_metric_correct_samples_path (o : Oracles) (c : MCtx) (hn : c.namesO
     exactly the matrix of the direct reading over the entries of the window rounded down to whole slots. -/
 theorem plan_metric_correct_shortcut (o : Oracles) (c : MCtx) (hn : c.namesOk) (d : LokiDb) (q : MetricQuery)
     (hs : takesShortcut q = true) (hok : aggOk q)
-    (hm : q.rangeAgg.sel.matchers.length ≤ 63) (hms : 1000000 ∣ q.rangeAgg.durNs)
+    (hm : q.rangeAgg.sel.matchers.length ≤ 63)
     (hts : ∀ s ∈ d.samples, 0 ≤ s.ts)
     (htriv : ∀ s ∈ d.samples, (lineFilters q.rangeAgg.sel).all (fun f => lineHolds o f s.str) = true) :
     (evalSelA o (d.toDbM c) (planMetric c q)).map normRow = evalMetric o c d q :=
-  planMetric_shortcut o c hn d q hs hok hm hms hts htriv
+  planMetric_shortcut o c hn d q hs hok hm hts htriv
 
 /-- `plan()` is the composition of its phases, `planPhases (takesShortcut q) c q`: `planPhases true` is the plan of
     `planMetrics15Shortcut`, `planPhases false` the plan of the matrix functions in `getFunctionOrder`. -/
@@ -377,17 +404,17 @@ theorem plan_is_phases (c : MCtx) (q : MetricQuery) : planMetric c q = planPhase
     would build for the same query (reading `samples`, every stage planned) return the same matrix. -/
 theorem shortcut_equals_function_plan (o : Oracles) (c : MCtx) (hn : c.namesOk) (d : LokiDb) (q : MetricQuery)
     (hs : takesShortcut q = true) (hok : aggOk q)
-    (hm : q.rangeAgg.sel.matchers.length ≤ 63) (hms : 1000000 ∣ q.rangeAgg.durNs)
+    (hm : q.rangeAgg.sel.matchers.length ≤ 63)
     (hts : ∀ s ∈ d.samples, 0 ≤ s.ts)
     (htriv : ∀ s ∈ d.samples, (lineFilters q.rangeAgg.sel).all (fun f => lineHolds o f s.str) = true)
     (hfrom : Int.tdiv c.fromNs slot15 * slot15 = c.fromNs) (hto : Int.tdiv c.toNs slot15 * slot15 = c.toNs) :
     (evalSelA o (d.toDbM c) (planPhases true c q)).map normRow =
       (evalSelA o (d.toDbM c) (planPhases false c q)).map normRow :=
-  shortcut_plan_eq_function_plan o c hn d q hs hok hm hms hts htriv hfrom hto
+  shortcut_plan_eq_function_plan o c hn d q hs hok hm hts htriv hfrom hto
 
 /-- **plan_metric_correct** (the union of the classes above, over the decidable predicate `supported`). For every
     supported metric query — range aggregation rate / count_over_time / bytes_rate / bytes_over_time over a selector of
-    the C07 fragment with a range that is a positive whole number of milliseconds and at most 63 matchers; alone, under
+    the C07 fragment with a positive range (any unit) and at most 63 matchers; alone, under
     sum/min/max/avg/count `by`/`without`, under topk/bottomk, comparisons anywhere — every context (window, step <, =,
     > range, signal type, table names) and every database:
     `evalSelA (planMetric c q)`, value column read as a number, `=` `evalMetric c q`.
@@ -427,7 +454,7 @@ theorem plan_metric_correct_unwrap_sorted (o : Oracles) (c : MCtx) (hn : c.names
     timestamps — `plan_metric_correct_unwrap` is the proved form, the `sem` stream searches this one. -/
 def plan_metric_correct_full : Prop :=
   ∀ (o : Oracles) (c : MCtx) (d : LokiDb) (q : MetricQuery), c.namesOk → q.rangeAgg.sel.matchers.length ≤ 63 →
-    1000000 ∣ q.rangeAgg.durNs → 0 < q.rangeAgg.durNs → ShortcutOk o d q →
+    0 < q.rangeAgg.durNs → ShortcutOk o d q →
     (evalSelA o (d.toDbM c) (planMetric c q)).map normRow = evalMetric o c d q
 
 /-- **no entry outside the window (widened at most to whole range buckets) contributes.** Changing, adding or removing
@@ -473,8 +500,8 @@ theorem vector_agg_ungrouped (o : Oracles) (c : MCtx) (hn : c.namesOk) (d : Loki
     rate / count_over_time / bytes_rate / bytes_over_time, or ending in `| unwrap x` under rate / sum / avg / min / max /
     first / last / stdvar / stddev_over_time, or `quantile_over_time(φ, … | unwrap x [d])` with or without such stages;
     a grouping clause on an unwrapped / quantile range aggregation; alone, under a grouped vector aggregation
-    (sum/min/max/avg/count/stddev/stdvar), under topk/bottomk; comparisons anywhere; any step; range a positive whole
-    number of milliseconds; ≤ 63 matchers. For every such query, every context and every database:
+    (sum/min/max/avg/count/stddev/stdvar), under topk/bottomk; comparisons anywhere; any step; any positive range;
+    ≤ 63 matchers. For every such query, every context and every database:
     `evalSelA (planMetricX c q)`, value column read as a number, `=` `evalMetricX c q` — the entries the selector AND
     every written pipeline stage let through (C07's `stagesX` over `entriesAtJoin`: each entry with its own stream's
     labels as rewritten by the json / regexp / drop stages up to that point, in the series of its rewritten label set),
